@@ -659,6 +659,9 @@ int symlink(const char *a, const char *b) {
 /* ── observing calls: scheduling points only (never counted as mutating) ── */
 int statx(int dirfd, const char *path, int flags, unsigned mask, struct statx *st) {
     REAL(statx);
+    /* std probes for statx support with statx(0, NULL, 0, mask, NULL) after a failure: pass it straight through */
+    const char *volatile pv = path;
+    if (pv == NULL || st == NULL) return real_statx(dirfd, path, flags, mask, st);
     ENTER();
     if (path && path[0] == 0) { /* AT_EMPTY_PATH: fstat-like */
         FD_EVENT("fstat", dirfd, 0, 0, 0, 0);
